@@ -177,10 +177,11 @@ func (m *zzBusMonitor) DeletedMetadata(ctx context.Context, targetType string, t
 
 // zzWorld is one running commander over a store.
 type zzWorld struct {
-	store     *zzStore
-	monitor   *zzMonitor
-	commander *Commander
-	ctx       context.Context
+	metaVariant int
+	store       *zzStore
+	monitor     *zzMonitor
+	commander   *Commander
+	ctx         context.Context
 }
 
 func zzStart(store *zzStore, locker Locker) *zzWorld {
